@@ -1589,13 +1589,42 @@ def connectBody (host : Bytes) (port : Nat) (cred : Option (Bytes × Bytes)) : M
           afterTls rs
     else afterTls rs
 
+/-- `connectT` on a client that is still connected: the open connection is abandoned (closed, no shutdown) -/
+def connectDropT : MT Unit := do
+  let w0 ← getT
+  if w0.base.connected then
+    emitT (.ev w0.ctlTls .ctlClose)
+    modifyT fun w => { w with base := { w.base with connected := false } }
+
+theorem getT_ite_jp {α} (c : WorldT → Bool) (a : WorldT → MT Unit) (b : MT Unit) (rest : MT α) :
+    (getT >>= fun w0 => if c w0 then a w0 >>= fun _ => b >>= fun _ => rest else rest) =
+      (getT >>= fun w0 => if c w0 then (a w0 >>= fun _ => b) else pure ()) >>= fun _ => rest := by
+  funext w
+  show (if c w then a w >>= fun _ => b >>= fun _ => rest else rest) w =
+    ((if c w then (a w >>= fun _ => b) else pure ()) >>= fun _ => rest) w
+  cases c w
+  · rfl
+  · simp only [if_true, bindT_eq]
+    rcases a w w with ⟨r | _, w1⟩
+    · simp only []
+    · rfl
+
 theorem connectT_eq (host : Bytes) (port : Nat) (cred : Option (Bytes × Bytes)) :
     connectT host port cred =
       match cred with
       | some (u, p) => lift (mkCmd "USER" (some u)) >>= fun _ => lift (mkCmd "PASS" (some p)) >>= fun _ =>
-          connectBody host port cred
-      | none => connectBody host port cred := by
-  cases cred <;> rfl
+          connectDropT >>= fun _ => connectBody host port cred
+      | none => connectDropT >>= fun _ => connectBody host port cred := by
+  cases cred with
+  | none =>
+    exact getT_ite_jp (fun w => w.base.connected) (fun w0 => emitT (.ev w0.ctlTls .ctlClose))
+      (modifyT fun w => { w with base := { w.base with connected := false } }) (connectBody host port none)
+  | some c =>
+    obtain ⟨u, p⟩ := c
+    show (lift (mkCmd "USER" (some u)) >>= fun _ => lift (mkCmd "PASS" (some p)) >>= fun _ => _) = _
+    congr 1; funext _; congr 1; funext _
+    exact getT_ite_jp (fun w => w.base.connected) (fun w0 => emitT (.ev w0.ctlTls .ctlClose))
+      (modifyT fun w => { w with base := { w.base with connected := false } }) (connectBody host port (some (u, p)))
 
 def AllEv (t : Bool) (X : List EvT) : Prop := ∀ e ∈ X, ∃ e0, e = EvT.ev t e0
 
@@ -1612,11 +1641,18 @@ theorem allEv_map (t : Bool) (evs : List Ev) : AllEv t (evs.map (EvT.ev t)) := b
 /-- the first command line of a TLS connection -/
 def AUTHL : Bytes := str "AUTH TLS" ++ CRLF
 
-def ConnPost (r : Res Replies) (w' : WorldT) (evs : List EvT) : Prop :=
+def ConnPost0 (r : Res Replies) (w' : WorldT) (evs : List EvT) : Prop :=
   (AllEv false evs ∧ (allWrites evs = [] ∨ allWrites evs = [AUTHL])) ∨
   (∃ X, evs = X ++ [EvT.ctlTlsHandshake false] ∧ AllEv false X ∧ allWrites X = [AUTHL] ∧ r = .throw) ∨
   (∃ X Y, evs = X ++ EvT.ctlTlsHandshake true :: Y ∧ AllEv false X ∧ allWrites X = [AUTHL] ∧ AllEv true Y ∧
     w'.ctlTls = true)
+
+/-- the close of a connection that `connect` found still open -/
+def DropEvs (P : List EvT) : Prop := P = [] ∨ ∃ t, P = [EvT.ev t .ctlClose]
+
+/-- what `connect` appends: possibly the close of the abandoned connection, then the new connection -/
+def ConnPost (r : Res Replies) (w' : WorldT) (evs : List EvT) : Prop :=
+  ∃ P rest, evs = P ++ rest ∧ DropEvs P ∧ ConnPost0 r w' rest
 
 /-- a lifted step that writes no command -/
 theorem lift_npw {α} {m : M α} (h : AllP NPW m) (w : WorldT) :
@@ -1657,7 +1693,7 @@ theorem afterTls_spec (cred : Option (Bytes × Bytes)) (rs : Replies) :
   allt [processLoginT_q3]
 
 theorem connectBody_spec (host : Bytes) (port : Nat) (cred : Option (Bytes × Bytes)) (w : WorldT)
-    (h : w.tlsCtx = true) : SatT (connectBody host port cred) w ConnPost := by
+    (h : w.tlsCtx = true) : SatT (connectBody host port cred) w ConnPost0 := by
   unfold connectBody
   dsimp only
   apply SatT.bind; apply SatT.modifyT rfl; dsimp only
@@ -1756,12 +1792,35 @@ theorem lift_mkCmd_spec (verb : String) (arg : Option Bytes) (w : WorldT) :
   rw [lift_mkCmd]
   exact ⟨[], by simp, rfl, rfl⟩
 
+theorem connectDropT_spec (w : WorldT) :
+    SatT connectDropT w (fun r w' evs => r = .ok () ∧ w'.tlsCtx = w.tlsCtx ∧ DropEvs evs) := by
+  unfold connectDropT
+  apply SatT.bind; apply SatT.getT; dsimp only
+  split
+  · apply SatT.bind; apply SatT.emitT; dsimp only
+    apply SatT.modifyT rfl
+    exact ⟨rfl, rfl, Or.inr ⟨_, rfl⟩⟩
+  · exact SatT.pure ⟨rfl, rfl, Or.inl rfl⟩
+
+theorem connectRest_spec (host : Bytes) (port : Nat) (cred : Option (Bytes × Bytes)) (w : WorldT)
+    (h : w.tlsCtx = true) : SatT (connectDropT >>= fun _ => connectBody host port cred) w ConnPost := by
+  apply SatT.bind
+  apply (connectDropT_spec w).mono
+  rintro r1 w1 e1 ⟨rfl, ht, hp⟩
+  dsimp only
+  apply (connectBody_spec host port cred w1 (ht.trans h)).mono
+  intro r w' e hq
+  exact ⟨e1, e, rfl, hp, hq⟩
+
+theorem connPost_nil {r : Res Replies} {w' : WorldT} : ConnPost r w' [] :=
+  ⟨[], [], rfl, Or.inl rfl, Or.inl ⟨allEv_nil _, Or.inl rfl⟩⟩
+
 /-- what `connect` with a TLS context appends -/
 theorem connectT_spec (host : Bytes) (port : Nat) (cred : Option (Bytes × Bytes)) (w : WorldT)
     (h : w.tlsCtx = true) : SatT (connectT host port cred) w ConnPost := by
   rw [connectT_eq]
   cases cred with
-  | none => exact connectBody_spec host port none w h
+  | none => exact connectRest_spec host port none w h
   | some c =>
     obtain ⟨u, p⟩ := c
     dsimp only
@@ -1769,18 +1828,18 @@ theorem connectT_spec (host : Bytes) (port : Nat) (cred : Option (Bytes × Bytes
     apply (lift_mkCmd_spec _ _ w).mono
     rintro r1 w1 e1 ⟨rfl, rfl⟩
     cases r1 with
-    | throw => exact Or.inl ⟨allEv_nil _, Or.inl rfl⟩
+    | throw => exact connPost_nil
     | ok c1 =>
       dsimp only
       apply SatT.bind
       apply (lift_mkCmd_spec _ _ w1).mono
       rintro r2 w2 e2 ⟨rfl, rfl⟩
       cases r2 with
-      | throw => exact Or.inl ⟨allEv_nil _, Or.inl rfl⟩
+      | throw => exact connPost_nil
       | ok c2 =>
         dsimp only
         simp only [List.nil_append]
-        exact connectBody_spec host port (some (u, p)) w2 h
+        exact connectRest_spec host port (some (u, p)) w2 h
 
 /-! ### what `ConnPost` says about the trace -/
 
@@ -1808,7 +1867,7 @@ theorem plainWrites_allEv_true {X : List EvT} (h : AllEv true X) : plainWrites X
   obtain ⟨e0, rfl⟩ := h e he
   rfl
 
-theorem connPost_plain {r : Res Replies} {w' : WorldT} {evs : List EvT} (h : ConnPost r w' evs) :
+theorem connPost0_plain {r : Res Replies} {w' : WorldT} {evs : List EvT} (h : ConnPost0 r w' evs) :
     plainWrites evs = [] ∨ plainWrites evs = [AUTHL] := by
   rcases h with ⟨ha, hw⟩ | ⟨X, rfl, ha, hw, _⟩ | ⟨X, Y, rfl, ha, hw, hy, _⟩
   · rw [plainWrites_allEv_false ha]; exact hw
@@ -1818,7 +1877,7 @@ theorem connPost_plain {r : Res Replies} {w' : WorldT} {evs : List EvT} (h : Con
     have : plainWrites (EvT.ctlTlsHandshake true :: Y) = plainWrites Y := rfl
     rw [plainWrites_append, plainWrites_allEv_false ha, hw, this, plainWrites_allEv_true hy]; rfl
 
-theorem connPost_first {r : Res Replies} {w' : WorldT} {evs : List EvT} (h : ConnPost r w' evs) :
+theorem connPost0_first {r : Res Replies} {w' : WorldT} {evs : List EvT} (h : ConnPost0 r w' evs) :
     allWrites evs = [] ∨ (allWrites evs).head? = some AUTHL := by
   rcases h with ⟨ha, hw⟩ | ⟨X, rfl, ha, hw, _⟩ | ⟨X, Y, rfl, ha, hw, hy, _⟩
   · rcases hw with hw | hw
@@ -1827,14 +1886,14 @@ theorem connPost_first {r : Res Replies} {w' : WorldT} {evs : List EvT} (h : Con
   · right; rw [allWrites_append, hw]; rfl
   · right; rw [allWrites_append, hw]; rfl
 
-theorem connPost_stop {r : Res Replies} {w' : WorldT} {evs : List EvT} (h : ConnPost r w' evs)
+theorem connPost0_stop {r : Res Replies} {w' : WorldT} {evs : List EvT} (h : ConnPost0 r w' evs)
     (hn : ∀ ok, EvT.ctlTlsHandshake ok ∉ evs) : allWrites evs = [] ∨ allWrites evs = [AUTHL] := by
   rcases h with ⟨ha, hw⟩ | ⟨X, rfl, ha, hw, _⟩ | ⟨X, Y, rfl, ha, hw, hy, _⟩
   · exact hw
   · exact absurd (by simp) (hn false)
   · exact absurd (by simp) (hn true)
 
-theorem connPost_fail {r : Res Replies} {w' : WorldT} {evs : List EvT} (h : ConnPost r w' evs)
+theorem connPost0_fail {r : Res Replies} {w' : WorldT} {evs : List EvT} (h : ConnPost0 r w' evs)
     (hm : EvT.ctlTlsHandshake false ∈ evs) :
     r = .throw ∧ allWrites evs = [AUTHL] ∧ evs.getLast? = some (EvT.ctlTlsHandshake false) := by
   rcases h with ⟨ha, hw⟩ | ⟨X, rfl, ha, hw, hr⟩ | ⟨X, Y, rfl, ha, hw, hy, _⟩
@@ -1847,7 +1906,7 @@ theorem connPost_fail {r : Res Replies} {w' : WorldT} {evs : List EvT} (h : Conn
       · cases h2
       · exact absurd h2 (not_mem_allEv hy false)
 
-theorem connPost_protects {r : Res Replies} {w' : WorldT} {evs : List EvT} (h : ConnPost r w' evs)
+theorem connPost0_protects {r : Res Replies} {w' : WorldT} {evs : List EvT} (h : ConnPost0 r w' evs)
     (hm : EvT.ctlTlsHandshake true ∈ evs) : w'.ctlTls = true := by
   rcases h with ⟨ha, hw⟩ | ⟨X, rfl, ha, hw, hr⟩ | ⟨X, Y, rfl, ha, hw, hy, hl⟩
   · exact absurd hm (not_mem_allEv ha true)
@@ -1856,6 +1915,53 @@ theorem connPost_protects {r : Res Replies} {w' : WorldT} {evs : List EvT} (h : 
     · rcases List.mem_singleton.1 h1 with h2
       cases h2
   · exact hl
+
+theorem dropEvs_writes {P : List EvT} (h : DropEvs P) :
+    plainWrites P = [] ∧ allWrites P = [] ∧ ∀ b, EvT.ctlTlsHandshake b ∉ P := by
+  rcases h with rfl | ⟨t, rfl⟩
+  · exact ⟨rfl, rfl, fun _ h => by cases h⟩
+  · refine ⟨?_, rfl, fun _ h => ?_⟩
+    · cases t <;> rfl
+    · simp at h
+
+theorem connPost_plain {r : Res Replies} {w' : WorldT} {evs : List EvT} (h : ConnPost r w' evs) :
+    plainWrites evs = [] ∨ plainWrites evs = [AUTHL] := by
+  obtain ⟨P, rest, rfl, hp, h0⟩ := h
+  rw [plainWrites_append, (dropEvs_writes hp).1, List.nil_append]
+  exact connPost0_plain h0
+
+theorem connPost_first {r : Res Replies} {w' : WorldT} {evs : List EvT} (h : ConnPost r w' evs) :
+    allWrites evs = [] ∨ (allWrites evs).head? = some AUTHL := by
+  obtain ⟨P, rest, rfl, hp, h0⟩ := h
+  rw [allWrites_append, (dropEvs_writes hp).2.1, List.nil_append]
+  exact connPost0_first h0
+
+theorem connPost_stop {r : Res Replies} {w' : WorldT} {evs : List EvT} (h : ConnPost r w' evs)
+    (hn : ∀ ok, EvT.ctlTlsHandshake ok ∉ evs) : allWrites evs = [] ∨ allWrites evs = [AUTHL] := by
+  obtain ⟨P, rest, rfl, hp, h0⟩ := h
+  rw [allWrites_append, (dropEvs_writes hp).2.1, List.nil_append]
+  exact connPost0_stop h0 fun ok hm => hn ok (List.mem_append_right _ hm)
+
+theorem connPost_fail {r : Res Replies} {w' : WorldT} {evs : List EvT} (h : ConnPost r w' evs)
+    (hm : EvT.ctlTlsHandshake false ∈ evs) :
+    r = .throw ∧ allWrites evs = [AUTHL] ∧ evs.getLast? = some (EvT.ctlTlsHandshake false) := by
+  obtain ⟨P, rest, rfl, hp, h0⟩ := h
+  have hm' : EvT.ctlTlsHandshake false ∈ rest := by
+    rcases List.mem_append.1 hm with h1 | h1
+    · exact absurd h1 ((dropEvs_writes hp).2.2 false)
+    · exact h1
+  obtain ⟨a, b, c⟩ := connPost0_fail h0 hm'
+  refine ⟨a, ?_, ?_⟩
+  · rw [allWrites_append, (dropEvs_writes hp).2.1, List.nil_append]; exact b
+  · rw [List.getLast?_append, c]; rfl
+
+theorem connPost_protects {r : Res Replies} {w' : WorldT} {evs : List EvT} (h : ConnPost r w' evs)
+    (hm : EvT.ctlTlsHandshake true ∈ evs) : w'.ctlTls = true := by
+  obtain ⟨P, rest, rfl, hp, h0⟩ := h
+  refine connPost0_protects h0 ?_
+  rcases List.mem_append.1 hm with h1 | h1
+  · exact absurd h1 ((dropEvs_writes hp).2.2 true)
+  · exact h1
 
 /-! ### a session whose handshake failed: nothing is written any more -/
 
